@@ -577,7 +577,62 @@ def run_C15(run):
                       CHECKER)
 
 
-TABLE = {"C15": run_C15, "C11": run_C11, "C16": run_C16, "C19": run_C19, "C06": run_C06, "C14": run_C14, "C18": run_C18, "C05": run_C05, "C07": run_C07, "C01": run_C01, "C13": run_C13, "C09": run_C09, "C04": run_C04, "C02": run_C02, "C10": run_C10, "C08": run_C08, "C17": run_C17, "C12": run_C12}
+# ------------------------------------------------------------------------------------------ C20
+def sanitizer_run(run, src, exe_name, flags, args, opt="-O0"):
+    """build with UBSan/ASan in recover mode, run, attribute every report to the last `CALL <fn>` marker on stderr"""
+    exe = os.path.join(run.dir, exe_name)
+    ok, err = run.build_cpp(src, exe, ["-g", "-fsanitize=undefined,float-cast-overflow,address", "-fsanitize-recover=all", "-fno-omit-frame-pointer"] + list(flags), opt=opt)
+    if not ok:
+        run.broken.append({"what": "sanitizer build of %s failed" % os.path.basename(src), "detail": err[-1500:]}); return [], 0
+    env = dict(os.environ, UBSAN_OPTIONS="print_stacktrace=0:halt_on_error=0", ASAN_OPTIONS="halt_on_error=0:detect_leaks=0")
+    rc, out, err, dt = core.sh([exe] + [str(a) for a in args], timeout=1200, env=env)
+    cur = "?"; fails = []; seen = set()
+    for l in err.split("\n"):
+        if l.startswith("CALL "): cur = l[5:].strip(); continue
+        m = re.match(r"(\S+?):(\d+):(\d+): runtime error: (.*)", l)
+        if m:
+            kind = re.sub(r"-?\d[\d.e+]*", "N", m.group(4)); kind = re.sub(r"\s+", " ", kind).strip()
+            key = (cur, kind)
+            if key not in seen:
+                seen.add(key); fails.append({"fn": cur, "class": kind, "input": "%s:%s  %s" % (os.path.basename(m.group(1)), m.group(2), m.group(4)[:160]), "expected": "no sanitizer report", "got": "runtime error", "line": l})
+        elif "ERROR: AddressSanitizer" in l:
+            fails.append({"fn": cur, "class": "AddressSanitizer", "input": l[:200], "expected": "no sanitizer report", "got": "memory error", "line": l})
+    cases = 0
+    mm = re.search(r"TOTAL cases=(\d+)", out)
+    if mm: cases = int(mm.group(1))
+    if rc not in (0, 1) and not fails: run.broken.append({"what": "sanitized program %s crashed (rc=%d)" % (exe_name, rc), "detail": (err or out)[-1500:]})
+    return fails, cases
+
+
+def run_C20(run):
+    stats = par([lambda: run.build_trace("tr_C20", "Gen_C20", ["-DVT_NO_ASSERT"])])
+    trace_cov(run, stats)
+    gens = [os.path.join(run.dir, "Gen_C20.v")] if os.path.exists(os.path.join(run.dir, "Gen_C20.v")) else []
+    run.prove(gens, ["C20/A_C20_defs.v", "C20/P_C20.v"], [], "C20/Properties_C20.v", timeout=900)
+    jobs = [(os.path.join(core.VERIF, "tools", "oracle", "oracle_C20.cpp"), "san_C20_O0", [], ["sweep", run.seed, run.tier], "-O0"),
+            (os.path.join(core.VERIF, "tools", "oracle", "oracle_C20.cpp"), "san_C20_O2", [], ["sweep", run.seed, run.tier], "-O2"),
+            (os.path.join(core.VERIF, "tools", "oracle", "oracle_C20.cpp"), "san_C20_sse2", ["-DGLM_FORCE_INTRINSICS", "-msse2"], ["sweep", run.seed, run.tier], "-O1"),
+            (os.path.join(core.VERIF, "tools", "oracle", "oracle_C20.cpp"), "san_C20_avx2", ["-DGLM_FORCE_INTRINSICS", "-mavx2"], ["sweep", run.seed, run.tier], "-O1")]
+    fails = []; total = 0
+    for fl, n in par([lambda j=j: sanitizer_run(run, j[0], j[1], j[2], j[3], j[4]) for j in jobs]):
+        fails += fl; total += n
+    # de-duplicate across builds
+    uniq = {}
+    for f in fails: uniq.setdefault((f["fn"], f["class"]), f)
+    run.cov["oracle_cases"] = total; run.cov["sanitizer_builds"] = [j[1] for j in jobs]
+    run.cov["oracle_functions_failing"] = sorted(set(k[0] for k in uniq))[:30]
+    run.fails = run.triage(list(uniq.values()))
+    run.assumptions = ["theorems cover the integer / bitfield templates instantiated with 32-bit int and unsigned int, as traced; 8/16/64-bit element types, functions that convert a float to int (roundEven, iround), bitCount / findLSB / findMSB (untraceable int conversions), the non-template code (packing, half, ULP) and the SIMD paths are covered by the sanitizer oracle only (testing)",
+                       "strict semantics = C++14/17: signed overflow, shift count outside [0, width), left shift of a negative value or of a value whose result is not representable in the unsigned type, division by zero and INT_MIN / -1; unsigned arithmetic wraps and is never an error",
+                       "sanitizer oracle: UBSan reports one diagnostic per source location, so the list of classes it prints under-approximates the kinds of UB at one location; out-of-bounds / misaligned / null accesses are observed by ASan on the same runs",
+                       "abs / unary minus / isPowerOfTwo / ceilPowerOfTwo of the most negative int, and shifts or divisions outside their C++ preconditions, are outside the documented domains (stated as hypotheses)"]
+    run.samples.append("sanitizer inputs: 21 boundary ints (0, +-1, powers of two +-1, INT_MAX, INT_MIN, ...) and random ints; every (offset, bits) field on a 5/3 stride (thorough: all), mask counts 0..40, rotation counts 0..32, fill fields, multiples, float boundary values (0.49999997, ties, 2^23+1, 2^31-128, denormal) for the rounding / packing / ULP functions; builds: -O0, -O2, SSE2 and AVX2 intrinsics")
+    return run.finish(TRUST_COMMON + ["oracle_C20.cpp under -fsanitize=undefined,float-cast-overflow,address (violation search; sole check outside the traced integer fragment)"],
+                      "theorems: 64 traced integer / bitfield entries, all 2^32 (2^64, 2^96) input combinations symbolic, 50 of them without any precondition; oracle: 4 sanitized builds",
+                      CHECKER)
+
+
+TABLE = {"C20": run_C20, "C15": run_C15, "C11": run_C11, "C16": run_C16, "C19": run_C19, "C06": run_C06, "C14": run_C14, "C18": run_C18, "C05": run_C05, "C07": run_C07, "C01": run_C01, "C13": run_C13, "C09": run_C09, "C04": run_C04, "C02": run_C02, "C10": run_C10, "C08": run_C08, "C17": run_C17, "C12": run_C12}
 
 
 def replay(pid, path):
